@@ -263,6 +263,22 @@ const c25NEvents = 18
 type c25Case struct {
 	Events []int   `json:"events"`         // history from the empty state (for a fork case: the parent P)
 	Fork   *[3]int `json:"fork,omitempty"` // fork-order case: events e1, e2 on P and e3 on step(P,e1)
+	// guarantee-shape case: one more block (event Ev for root/theta) whose guarantees carry package
+	// hashes that share their first Share bytes, listed in the order Order (indices by ascending hash)
+	Shape *c25GShape `json:"shape,omitempty"`
+	Ev    int        `json:"ev,omitempty"`
+}
+
+type c25GShape struct {
+	Share int   `json:"share"`
+	Order []int `json:"order"`
+}
+
+// package hash number j (ascending in j) of a family sharing the first `share` bytes
+func c25SharedHash(d, share, j int) c25Hash {
+	h := c25Fill(0xD3, d, 0x5A)
+	h[share] = byte(0x20 + 0x30*j)
+	return h
 }
 
 func c25Fill(tag byte, a, b int) c25Hash {
@@ -278,13 +294,23 @@ func c25Fill(tag byte, a, b int) c25Hash {
 
 // block number d (0-based) of a history, given the parent header hash
 func c25Block(d int, ev int, parent c25Hash) (types.Block, c25Hash, []c25Rep, []c25Theta) {
+	return c25BlockG(d, ev, parent, nil)
+}
+
+func c25BlockG(d int, ev int, parent c25Hash, shape *c25GShape) (types.Block, c25Hash, []c25Rep, []c25Theta) {
 	root, g, th := ev/9, (ev/3)%3, ev%3
 	pr := c25Fill(0x51+byte(root), 0, 0)
 	var reps []c25Rep
 	var egs types.GuaranteesExtrinsic
 	// package hashes: core 0 gets the LARGER hash so that extrinsic order (by core) is descending by hash
+	if shape != nil {
+		g = len(shape.Order)
+	}
 	for c := 0; c < g; c++ {
 		ph := c25Fill(byte(0xE0-0x40*c), d, c)
+		if shape != nil {
+			ph = c25SharedHash(d, shape.Share, shape.Order[c])
+		}
 		ex := c25Fill(byte(0x30+c), d, ev)
 		reps = append(reps, c25Rep{ph, ex})
 		egs = append(egs, types.ReportGuarantee{Report: types.WorkReport{
@@ -480,7 +506,11 @@ func (r *c25Ref) clone() c25Ref {
 // install `from` as the prior state (no process restart, no replay), run block (d, ev, parent) through the
 // real code and compare with the reference. Returns the reference successor and the block's header hash.
 func c25StepInstalled(r *vlib.Run, cs *blockchain.ChainState, c c25Case, label string, from c25Ref, d, ev int, parent c25Hash) (c25Ref, c25Hash, bool) {
-	blk, pr, reps, theta := c25Block(d, ev, parent)
+	var shape *c25GShape
+	if c.Fork == nil {
+		shape = c.Shape
+	}
+	blk, pr, reps, theta := c25BlockG(d, ev, parent, shape)
 	hh := c25HeaderHash(blk.Header)
 	after := from.clone()
 	after.step(hh, pr, reps, theta)
@@ -499,7 +529,13 @@ func c25StepInstalled(r *vlib.Run, cs *blockchain.ChainState, c c25Case, label s
 	})
 	r.Transition()
 	key := "fork-order:" + label // one defect of this kind = few signatures
-	where := fmt.Sprintf("parent history %v, fork events %v, transition %s (event %d on an installed prior state of length %d)", c.Events, *c.Fork, label, ev, len(from.Hist))
+	var where string
+	if shape != nil {
+		key = label
+		where = fmt.Sprintf("parent history %v, block with event %d and %d guarantees whose package hashes share their first %d bytes, listed in order %v (0 = smallest)", c.Events, ev, len(shape.Order), shape.Share, shape.Order)
+	} else {
+		where = fmt.Sprintf("parent history %v, fork events %v, transition %s (event %d on an installed prior state of length %d)", c.Events, *c.Fork, label, ev, len(from.Hist))
+	}
 	site := "recent_history.STFBetaHDagger2BetaHPrime"
 	if panicked {
 		r.Violation(site, "go-panic", key, where+": Go panic "+msg, c)
@@ -548,6 +584,23 @@ func c25Fork(r *vlib.Run, c c25Case) {
 	r.Class(fmt.Sprintf("fork-order parent=%s all-agree=%v", c25LenClass(len(P.Hist)), ok && ok2 && ok3 && ok4))
 }
 
+// one block with a guarantee set of the given shape on the installed state after c.Events
+func c25ShapeRun(r *vlib.Run, c c25Case) {
+	P, parent := c25RefChain(c.Events)
+	cs := c25Reset()
+	sorted := "ascending"
+	for i := 1; i < len(c.Shape.Order); i++ {
+		if c.Shape.Order[i] < c.Shape.Order[i-1] {
+			sorted = "not-ascending"
+		}
+	}
+	label := fmt.Sprintf("guarantee-hashes:share=%d,n=%d,%s", c.Shape.Share, len(c.Shape.Order), sorted)
+	_, _, ok := c25StepInstalled(r, cs, c, label, P, len(c.Events), c.Ev, parent)
+	r.Eval()
+	r.Trace()
+	r.Class(fmt.Sprintf("%s prior=%s agree=%v", label, c25LenClass(len(P.Hist)), ok))
+}
+
 func TestVerif_C25(t *testing.T) {
 	r := vlib.Start(t, "C25")
 	defer r.Finish()
@@ -557,6 +610,8 @@ func TestVerif_C25(t *testing.T) {
 	if r.IsReplay(&rc) {
 		if rc.Fork != nil {
 			c25Fork(r, rc)
+		} else if rc.Shape != nil {
+			c25ShapeRun(r, rc)
 		} else {
 			c25Run(r, rc, 0)
 		}
@@ -635,6 +690,28 @@ func TestVerif_C25(t *testing.T) {
 					r.Space(1)
 					c25Fork(r, c25Case{Events: p, Fork: &[3]int{e1, e2, e3}})
 				}
+			}
+		}
+	}
+
+	// ---- guarantee-hash shapes: package hashes that share long prefixes ----
+	var shapes []c25GShape
+	for _, sh := range []int{1, 8, 16, 31} {
+		shapes = append(shapes, c25GShape{Share: sh, Order: []int{0, 1}}, c25GShape{Share: sh, Order: []int{1, 0}})
+	}
+	for _, sh := range []int{8, 31} {
+		vlib.Permutations(3, func(p []int) { shapes = append(shapes, c25GShape{Share: sh, Order: append([]int{}, p...)}) })
+	}
+	for _, p := range [][]int{{}, {5}, {0, 17, 5, 13, 8, 2, 16, 4}, {4, 1, 14, 10, 7, 12, 3, 15, 6}} {
+		for _, ev := range []int{0, 1, 11} {
+			for _, sh := range shapes {
+				idx++
+				if !r.Mine(idx) {
+					continue
+				}
+				sh := sh
+				r.Space(1)
+				c25ShapeRun(r, c25Case{Events: p, Shape: &sh, Ev: ev})
 			}
 		}
 	}
